@@ -235,6 +235,7 @@ structure Tx where
   oogCheck : Bool := false    -- observed: CheckTx ran out of gas
   oogAnte : Bool := false     -- observed: the ante handler ran out of gas in the block
   oogMsgs : Bool := false     -- observed: message execution ran out of gas
+  oogRecheck : Bool := false  -- observed: the mempool RECHECK (after a commit) ran out of gas
 
 structure St where
   ledger : Ledger
@@ -404,5 +405,44 @@ def checkTx (cfg : Cfg) (tx : Tx) (s : St) : St × Option Err :=
   match anteHandle cfg tx true s with
   | .error e => (s, some e)
   | .ok (s1, _) => (s1, none)
+
+/-- `runTx` in `execModeReCheck` (forked baseapp.go:682: `ctx.WithIsReCheckTx(true)` ON TOP of
+`IsCheckTx`): what CometBFT does with every transaction still in its mempool after each commit,
+on the freshly committed state.  No decorator of `NewAnteHandler` reads `IsReCheckTx` except the
+SDK's `ValidateBasicDecorator` and the signature crypto check (the sequence comparison stays);
+in particular `MsgFeesDecorator` tests `ctx.IsCheckTx()` only, so the fee sufficiency check is
+REPEATED against the parameters and schedule now in force.  Hence: the CheckTx chain, with its
+own gas observation. -/
+def recheckTx (cfg : Cfg) (tx : Tx) (s : St) : St × Option Err :=
+  checkTx cfg { tx with oogCheck := tx.oogRecheck } s
+
+/-! ### One transaction's life in the mempool across a change of the fee schedule
+
+`CheckTx(New)` under the configuration `cfg` in force when it arrives; then (optionally) a block
+that does not contain it is committed and changes msgfees params / schedule to `cfg'` (a passed
+governance proposal); CometBFT rechecks it on the committed state (`s` again: what `CheckTx`
+wrote went to the mempool state only, which a commit resets); if it is still in the mempool it is
+executed in a later block, under `cfg'`. `force` = a proposer includes it although the mempool
+check refused it (outside the property's quantifier, kept for the correspondence). -/
+structure Life where
+  check : Option Err                 -- `none` = admitted
+  checkSt : St                       -- mempool state after CheckTx(New)
+  recheck : Option (Option Err)      -- `none` = not rechecked (no commit in between / not in the mempool)
+  recheckSt : St                     -- mempool state after the recheck (= `s` when not rechecked)
+  inMempool : Bool                   -- still admitted when the block is proposed
+  run : Option Run                   -- executed (in the mempool, or forced)
+
+def life (cfg cfg' : Cfg) (re force : Bool) (tx : Tx) (s : St) : Life :=
+  let (cs, cerr) := checkTx cfg tx s
+  match cerr with
+  | some e =>
+    -- never entered the mempool: nothing is rechecked, the schedule change is irrelevant to it
+    ⟨some e, cs, none, s, false, if force then some (deliverTx cfg tx s) else none⟩
+  | none =>
+    if re then
+      let (rs, rerr) := recheckTx cfg' tx s
+      ⟨none, cs, some rerr, rs, rerr.isNone,
+        if rerr.isNone ∨ force then some (deliverTx cfg' tx s) else none⟩
+    else ⟨none, cs, none, s, true, some (deliverTx cfg tx s)⟩
 
 end PvModel.Txfee
